@@ -305,6 +305,40 @@ func genC18(o *Out, rng *rand.Rand, tier string) {
 			o.Emit(rec, "read-truncated-at-every-offset", append([]byte{byte(ihl), byte(cut)}, f...), true)
 		}
 	}
+	// ---- read direction: the caller's buffer is exactly as large as the payload (the smallest buffer the property speaks
+	// about), whatever else the frame carries around it: IP options up to the 60-byte header, link-layer padding
+	for _, plen := range []int{0, 1, 8, 40, 240, 300, 548} {
+		for _, ihl := range []int{5, 6, 10, 15} {
+			for _, pad := range []int{0, 1, 6, 18, 40, 46, 60} {
+				fs := frameSpec{version: 4, ihl: ihl, proto: 17, src: net.IPv4(10, 0, 0, 9).To4(), dst: net.IPv4bcast.To4(), sport: 67, dport: 68,
+					payload: randBytes(rng, plen), pad: pad, cut: -1}
+				f := fs.build(rng)
+				sc := &scriptConn{frames: [][]byte{f}}
+				c := nclient4.NewBroadcastUDPConn(sc, &net.UDPAddr{Port: 68})
+				res := []any{}
+				rec := map[string]any{"op": "R", "frames": []any{B(f)}, "buflen": plen, "bound": map[string]any{"ip": []int{}, "port": 68}}
+				func() {
+					defer func() {
+						if r := recover(); r != nil {
+							rec["panic"] = fmt.Sprint(r)
+						}
+					}()
+					for {
+						b := make([]byte, plen)
+						n, addr, err := c.ReadFrom(b)
+						if err != nil {
+							rec["end"] = errors.Is(err, errScriptEnd)
+							return
+						}
+						u := addr.(*net.UDPAddr)
+						res = append(res, map[string]any{"payload": B(b[:n]), "src": endpoint(u.IP, u.Port)})
+					}
+				}()
+				rec["res"] = res
+				o.Emit(rec, "read-exact-buffer", append([]byte{byte(ihl), byte(pad), byte(plen), byte(plen >> 8)}, f...), true)
+			}
+		}
+	}
 	// ---- read direction: sequences of frames
 	for i := 0; i < nR; i++ {
 		var boundIP net.IP
